@@ -1081,10 +1081,11 @@ def recv_order(ctx, B, rule="R10.1"):
         return out
     past = past_tests(f)
     ut, ht = reads("try_recv", "urgent"), reads("try_recv", "high")
-    ctx.require(len(past) == 1 and len(ut) == 1 and len(ht) == 1, rule, "prelude-present",
-                "recv first checks the expired timer, then urgent.try_recv, then high.try_recv", f.loc(f.line),
-                fail="recv no longer drains pending urgent and high controls before waiting (found is_past=%d urgent.try_recv=%d high.try_recv=%d): "
-                     "a pending normal control can be picked before a pending urgent/high one" % (len(past), len(ut), len(ht)))
+    # the try_recv prelude is one of two sufficient mechanisms: biased selects listing their branches in priority order (required below, select-biased /
+    # select-branch-order) already take a pending urgent / high control first, so a recv() without the prelude is accepted; a partial prelude is not
+    ctx.require(len(past) == 1 and ((len(ut) == 1 and len(ht) == 1) or (not ut and not ht)), rule, "prelude-present",
+                "recv first checks the expired timer; pending urgent and high controls are drained by try_recv (urgent, then high) or left to the biased selects", f.loc(f.line),
+                fail="recv drains only part of the pending higher-priority queues before waiting (found is_past=%d urgent.try_recv=%d high.try_recv=%d)" % (len(past), len(ut), len(ht)))
     if len(past) == 1 and len(ut) == 1 and len(ht) == 1:
         ctx.require(cfg.dominates(past[0][0], ut[0][0]) and cfg.dominates(ut[0][0], ht[0][0]), rule, "prelude-order",
                     "expired timer is checked before urgent, urgent before high", f.loc(ut[0][1].line),
